@@ -22,7 +22,9 @@ fn run(ctx: &RunCtx) -> Report {
     let sim = Sim::new(ctx.seed, net);
     sim.set_snap_mode(SnapMode::Off);
     let rawnet = RawNet::new();
-    let n = rng.usize(1, 8);
+    // 1 run in 6: a long stream (more than 20 replicas, all in the bootstrap list, so all are asked)
+    let long_stream = rng.chance(1, 6);
+    let n = if long_stream { rng.usize(21, 40) } else { rng.usize(1, 8) };
     let key = krpc::signing_key(rng.bytes(32).try_into().unwrap());
     let pk = key.verifying_key().to_bytes();
     let salt: Option<Vec<u8>> = if rng.chance(1, 2) { Some(b"s".to_vec()) } else { None };
@@ -71,8 +73,33 @@ fn run(ctx: &RunCtx) -> Report {
     let reader = sim.add_node(spec);
     sim.run_for(2 * SEC);
 
-    let use_sync = rng.chance(1, 4);
+    let use_sync = if long_stream { rng.chance(1, 2) } else { rng.chance(1, 4) };
+    if long_stream {
+        report.probe("long_stream_runs", 1);
+    }
     let mut result: Option<Option<(i64, Vec<u8>)>> = None;
+    // 1 run in 5: the reader itself has a put_mutable for this key in flight; the call then joins
+    // that put's lookup and must also see what the lookup has already received
+    let with_put = !use_sync && rng.chance(1, 4);
+    let t_put = sim.now();
+    let mut put_item: Option<(i64, Vec<u8>)> = None;
+    if with_put {
+        for i in 0..n {
+            if rng.chance(1, 2) {
+                rawnet.with_peer(i, |p| p.delay = rng.range(150, 420) * MS);
+            }
+        }
+        let pseq = match rng.below(3) {
+            0 => 0,
+            1 => rng.range(0, 10) as i64,
+            _ => 2000,
+        };
+        let it = dht::MutableItem::new(&key, b"being put", pseq, salt.as_deref());
+        put_item = Some((pseq, b"being put".to_vec()));
+        let _ = sim.put_mutable(reader, it, None);
+        sim.run_for(rng.range(0, 300) * MS);
+        report.probe("put_in_flight_runs", 1);
+    }
     let t_call = sim.now();
     if use_sync {
         let salt2 = salt.clone();
@@ -107,13 +134,15 @@ fn run(ctx: &RunCtx) -> Report {
         report.probe("async_api_runs", 1);
     }
 
+    let lookup_active_at_call = std::cell::Cell::new(false);
+    let early_items: std::cell::RefCell<Vec<(i64, Vec<u8>)>> = Default::default();
     // delivered items, in arrival order, from the trace (replies that reached the reader in time)
     let reader_addr = sim.node_addr(reader);
     let delivered: Vec<(i64, Vec<u8>)> = sim.with_trace(|tr| {
         let mut reqs: std::collections::BTreeMap<(SocketAddrV4, u32), u64> = std::collections::BTreeMap::new();
         let mut out: Vec<(u64, i64, Vec<u8>)> = vec![];
         for d in tr.iter() {
-            if d.t_send < t_call {
+            if d.t_send < t_put {
                 continue;
             }
             let Some(k) = Krpc::parse(&d.bytes) else { continue };
@@ -131,9 +160,50 @@ fn run(ctx: &RunCtx) -> Report {
             }
         }
         out.sort_by_key(|o| o.0);
-        out.into_iter().map(|o| (o.1, o.2)).collect()
+        // was the lookup certainly still active at the call? (a request sent before it is answered after it)
+        let mut active = false;
+        for d in tr.iter() {
+            if let (Some(k), Some(td)) = (Krpc::parse(&d.bytes), d.t_deliver) {
+                if d.dst == reader_addr && k.is_response() && d.fate == Fate::Delivered && td > t_call {
+                    if let Some(sent) = reqs.get(&(d.src, k.tid_u32().unwrap_or(0))) {
+                        if *sent < t_call && td - sent < 450 * MS {
+                            active = true;
+                        }
+                    }
+                }
+            }
+        }
+        lookup_active_at_call.set(active);
+        let early: Vec<(i64, Vec<u8>)> = out.iter().filter(|o| o.0 <= t_call).map(|o| (o.1, o.2.clone())).collect();
+        early_items.replace(early);
+        out.into_iter().filter(|o| o.0 > t_call).map(|o| (o.1, o.2)).collect()
     });
-    let expected = delivered.iter().cloned().max_by(|a, b| a.0.cmp(&b.0).then(a.1.cmp(&b.1)));
+    let mut delivered = delivered;
+    if with_put {
+        let early = early_items.borrow().clone();
+        if lookup_active_at_call.get() {
+            // joined the put's lookup: what that lookup already holds counts, and so does the item being put
+            let mut all = early;
+            all.extend(delivered.iter().cloned());
+            delivered = all;
+            report.probe("joined_an_active_lookup_with_put_in_flight", 1);
+        } else {
+            // cannot tell from outside whether the call joined: not judged
+            report.vacuous = true;
+        }
+    }
+    let mut expected = delivered.iter().cloned().max_by(|a, b| a.0.cmp(&b.0).then(a.1.cmp(&b.1)));
+    if let (Some(pi), Some(Some(g))) = (&put_item, &result) {
+        // the item being put is handed to the caller as well: if it is what came back and it is at
+        // least as recent as everything delivered, that is the right answer
+        let ge = expected.as_ref().map(|e| (pi.0, &pi.1) >= (e.0, &e.1)).unwrap_or(true);
+        if g == pi && ge {
+            expected = Some(pi.clone());
+        }
+    }
+    if report.vacuous {
+        result = None;
+    }
     if let Some(got) = &result {
         match (got, &expected) {
             (None, None) => {}
